@@ -173,7 +173,7 @@ func inLedgerPkg(w *World, fn *ssa.Function) bool {
 }
 
 func checkC06(w *World, r *Report) {
-	r.Explanation = "Structural clause of C06: with every program point of every module function reachable from an ABCI entry labelled T (consensus), F (CheckTx), Q (Query) or ⊤ (shared) — from the entry it is reached from, refined by dominating tests of the exec flag (TrxContext.Exec, StateDBWrapper.exec, bool parameters that receive it) — (X-1a) every consensus-overlay ledger method on a live ledger is called at a T point and (X-1b) every mempool-overlay method at an F point, including both arms of the `fn := L.Get; if exec { fn = L.GetFinality }` idiom which must name the same ledger; (X-1c) every argument bound to a parameter that receives the exec flag, and every store to TrxContext.Exec / StateDBWrapper.exec, is the flag itself or a constant that agrees with the context of the call; (X-2) no in-memory controller state is written at a point that is not T (the query's scratch StateDBWrapper excepted); (X-3) every success return of FinalityLedger.Commit resets the mempool overlay; (X-4) the live EVM state is touched only at T points; (X-5) inside the ledger package, mempool-overlay operations never change what the consensus overlay reads or what a commit writes, and a commit discards the mempool overlay (the abstract interpretation of C18 L-1). (X-8) no object reachable from a package-level variable of the module is changed in place (a store through it, a 256-bit / big-integer operation with it as destination) at a point that can run in a CheckTx or Query context: such an object is shared by every caller, block execution included. (X-7) the readers of the committed tree that block execution iterates with consult no overlay container (C18 L-2): the plain ledger's overlay is fed by CheckTx."
+	r.Explanation = "Structural clause of C06: with every program point of every module function reachable from an ABCI entry labelled T (consensus), F (CheckTx), Q (Query) or ⊤ (shared) — from the entry it is reached from, refined by dominating tests of the exec flag (TrxContext.Exec, StateDBWrapper.exec, bool parameters that receive it) — (X-1a) every consensus-overlay ledger method on a live ledger is called at a T point and (X-1b) every mempool-overlay method at an F point, including both arms of the `fn := L.Get; if exec { fn = L.GetFinality }` idiom which must name the same ledger; (X-1c) every argument bound to a parameter that receives the exec flag, and every store to TrxContext.Exec / StateDBWrapper.exec, is the flag itself or a constant that agrees with the context of the call; (X-2) no in-memory controller state is written at a point that is not T (the query's scratch StateDBWrapper excepted); (X-3) every success return of FinalityLedger.Commit resets the mempool overlay; (X-4) the live EVM state is touched only at T points; (X-5) inside the ledger package, mempool-overlay operations never change what the consensus overlay reads or what a commit writes, and a commit discards the mempool overlay (the abstract interpretation of C18 L-1). (X-8) no object reachable from a package-level variable of the module is changed in place (a store through it, a 256-bit / big-integer operation with it as destination) at a point that can run in a CheckTx or Query context: such an object is shared by every caller, block execution included. (X-7) the readers of the committed tree that block execution iterates with consult no overlay container (C18 L-2): the plain ledger's overlay is fed by CheckTx. (X-9) the validation step that every CheckTx runs changes nothing, also not through module functions it hands controller objects to (C05 A-2)."
 	r.NotCovered = "interleavings below ABCI-call granularity (Query takes no application mutex); equality of results as such; internals of iavl/go-ethereum caches."
 
 	x := NewExecCtx(w)
@@ -208,6 +208,12 @@ func checkC06(w *World, r *Report) {
 		r.Undecided("X-7", "tree-iterators", "the committed-tree readers of the ledger package were not found")
 	}
 	x8(w, r, x)
+	// X-9: the validation that CheckTx runs is the same code DeliverTx runs first:
+	// it changes nothing — no ledger, no controller state, no object it was not
+	// handed as scratch (C05 A-2). A write there is made by every CheckTx.
+	if r.importObs(w, func(t *Report) { a2(w, t) }, "A-2", "X-9") < 3 {
+		r.Undecided("X-9", "validation-purity", "the validation purity rules (C05 A-2) matched fewer than 3 constructs")
+	}
 	r.Floor("X-1a", 20, "consensus-overlay call arms on live ledgers")
 	r.Floor("X-1b", 12, "mempool-overlay call arms on live ledgers")
 	r.Floor("X-1c", 15, "exec-flag arguments")
